@@ -1,4 +1,7 @@
 import RdpModel.Nla.Seal
+import RdpModel.Nla.Ntlm
+import RdpModel.Spec.NlmpVerify
+import Driver.Connect
 import Driver.C13
 namespace Rdp.Driver
 open Rdp Rdp.Crypto Rdp.Nla
@@ -63,8 +66,45 @@ def sealOps : SecCtx → SecCtx → List String → Bool → List String → Lis
     | some (main', mirror', out, orc, synced') => sealOps main' mirror' ops synced' (out :: a) (orc :: b)
     | none => none
 
+def ntlmAuth (toks : List String) : String :=
+  let g := fun k => (kv toks k).bind ofHex
+  match g "key", g "dom16", g "usr16", g "dom8", g "usr8", g "neg", g "chal", g "cc", g "ek" with
+  | some key0, some d16, some u16, some d8, some u8, some neg, some chal, some cc, some ek =>
+    -- when the password is on the line the model derives the key itself (md4 + hmac in Lean)
+    let key := match g "pw16", g "ud16" with
+      | some pw, some ud => ntowfv2 pw ud
+      | _, _ => key0
+    let i : NtlmIn := ⟨key, d16, u16, d8, u8, neg, cc, ek⟩
+    let model := match readChallenge i chal with
+      | .ok tok => "ok " ++ toHex tok
+      | .err _ => "E"
+      | .panic _ => "P"
+    -- oracle: the independent MS-NLMP verifier run on the IMPLEMENTATION's token
+    let oracle := match g "tok" with
+      | some tok =>
+        -- server-side knowledge: its own challenge message
+        let flags := Spec.Nlmp.u32at chal 20
+        let srvChal := (chal.drop 24).take 8
+        let unicode := flags % 2 = 1
+        let srv : Spec.Nlmp.Server := ⟨key, neg, chal, srvChal, flags, if unicode then d16 else d8, if unicode then u16 else u8⟩
+        match Spec.Nlmp.verify srv tok with
+        | .accept k => if k = ek then "ok " ++ toHex tok else "!exported-key-mismatch"
+        | .reject why => "!rejected:" ++ why
+      | none => "-"
+    model ++ "\t" ++ oracle
+  | _, _, _, _, _, _, _, _, _ => "bad-case"
+
+/-- an operation whose dependency (yasna / x509) is not modelled: the observation is echoed -/
+def observedOnly (toks : List String) : String :=
+  match kv toks "obs" with
+  | some o => o.replace "_" " " ++ "\t-"
+  | none => "bad-case"
+
 def nlaOps (toks : List String) : String :=
   match toks with
+  | "ntlm_auth" :: _ => ntlmAuth toks
+  | "ts_chal" :: _ => observedOnly toks
+  | "ts_validate" :: _ => observedOnly toks
   | ["seal", ke, kd, ks, kv, ops] =>
     match ofHex ke, ofHex kd, ofHex ks, ofHex kv with
     | some ke, some kd, some ks, some kv =>
